@@ -150,6 +150,25 @@ Section Generic.
     rewrite firstn_map, map_map. apply map_ext. intros i. rewrite H. reflexivity.
   Qed.
 
+  (* padding width: only the first n_nodes_per_face[f] entries of a row are read, so the width of the
+     table (how much fill follows) does not matter *)
+  Lemma c05_gather_padding pos dim3 r pad k :
+    (Z.to_nat k <= length r)%nat -> c05_gather O pos dim3 (r ++ pad) k = c05_gather O pos dim3 r k.
+  Proof.
+    intros H. unfold c05_gather. rewrite firstn_app.
+    replace (Z.to_nat k - length r)%nat with 0%nat by lia. cbn [firstn]. rewrite app_nil_r. reflexivity.
+  Qed.
+
+  Lemma c05_all_areas_padding pos t npf w dim3 rule order conv :
+    Forall2 (fun r k => (Z.to_nat k <= length r)%nat) t npf ->
+    c05_all_areas O pos (map (fun r => r ++ repeat FILL w) t) npf dim3 rule order conv =
+    c05_all_areas O pos t npf dim3 rule order conv.
+  Proof.
+    intros H. unfold c05_all_areas. f_equal.
+    induction H as [|r k t npf Hrk H IH]; [reflexivity|].
+    cbn [map combine fst snd]. rewrite IH. f_equal. cbn [fst snd]. rewrite c05_gather_padding by exact Hrk. reflexivity.
+  Qed.
+
   Lemma c05_opt_all_nth {A} (l : list (option A)) r f :
     c05_opt_all l = Some r -> (f < length l)%nat -> nth_error l f = Some (nth_error r f).
   Proof.
@@ -699,3 +718,10 @@ Example c05_history_nonvacuous :
                       [C05_get_areas; C05_compute C05_triangular 8 false; C05_total C05_gaussian 2])
              (C05_compute C05_gaussian 3 true) = (s, C05_pairs [(a, j)]) /\ 3 * c05_S / 2 < a.
 Proof. eexists. eexists. eexists. split; [vm_compute; reflexivity|reflexivity]. Qed.
+
+(* the octant triangle in a table of width 3 and of width 6 (three fill entries): same result, positive *)
+Example c05_padding_nonvacuous :
+  exists a, c05_all_areas c05_fx (c05_fx_pos c05_octant) [[0; 1; 2]] [3] true C05_triangular 4 None = Some [a]
+            /\ c05_all_areas c05_fx (c05_fx_pos c05_octant) (map (fun r => r ++ repeat FILL 3) [[0; 1; 2]]) [3] true C05_triangular 4 None = Some [a]
+            /\ 3 * c05_S / 2 < fst a.
+Proof. eexists. split; [vm_compute; reflexivity|]. split; [vm_compute; reflexivity|reflexivity]. Qed.
